@@ -64,6 +64,15 @@ MUTS = {
  "M17_weights_ignored": ("src/colvarbias_histogram.cpp", "grid->acc_value(bin, weights[iv]);", "grid->acc_value(bin, 1.0);"),
  "M18_vector_component_index": ("src/colvargrid.h", "                               cv[i]->value().vector1d_value[iv], i);", "                               cv[i]->value().vector1d_value[0], i);"),
  "M19_value_to_bin_truncates": ("src/colvargrid.h", "    return (int) cvm::floor( (value.real_value - lower_boundaries[i].real_value) / widths[i] );", "    return (int) ( (value.real_value - lower_boundaries[i].real_value) / widths[i] );"),
+ "R1_binary_values_reversed": ("src/colvargrid_def.h",
+   "      os << value_output(ix, imult);\n", "      os << value_output(ix, mult - 1 - imult);\n"),
+ "R2_normalised_input_not_multiplied": ("src/colvargrid.h",
+   "        data[address(ix) + imult] = new_value * samples->value(ix);\n      else\n        data[address(ix) + imult] = new_value;\n    }\n    has_data = true;\n  }\n\n\n  /// Compute and return average value for a 1D gradient grid",
+   "        data[address(ix) + imult] = new_value;\n      else\n        data[address(ix) + imult] = new_value;\n    }\n    has_data = true;\n  }\n\n\n  /// Compute and return average value for a 1D gradient grid"),
+ "R3_multicol_precision_10": ("src/colvargrid_def.h",
+   "         << std::setw(cvm::cv_width) << std::setprecision(cvm::cv_prec)\n         << value_output(ix, imult);",
+   "         << std::setw(cvm::cv_width) << std::setprecision(10)\n         << value_output(ix, imult);"),
+ "R4_binary_read_accepts_short": ("src/colvargrid_def.h", "      if (is >> new_value) {\n        g.value_input(ix, new_value, imult);\n      } else {", "      if ((is >> new_value) || std::is_same<IST, cvm::memory_stream>::value) {\n        g.value_input(ix, new_value, imult);\n      } else {"),
  "M14_init_from_boundaries_truncates": ("src/colvargrid.h", "      int nbins_round = (int)(nbins+0.5);", "      int nbins_round = (int)(nbins);"),
  "M15_state_sizes_line_missing_value": ("src/colvargrid_def.h", "  for (i = 0; i < nd; i++)\n    os << \" \" << nx[i];", "  for (i = 0; i + 1 < nd; i++)\n    os << \" \" << nx[i];"),
  "M10_raw_values_not_in_address_order": ("src/colvargrid_def.h",
